@@ -272,17 +272,24 @@ def readSimple (f : File) (r : Rd) : Outcome SimpleSection × Rd :=
 /-- `reader.readHeader`: `r.off = sz - 8` (wraps below 8), the TOC section, seek, section count -/
 def headerStart (f : File) : Rd := ⟨(f.size + two32 - 8) % two32⟩
 
-def readHeader (f : File) : Outcome (SimpleSection × Nat × Nat) :=
-  match readSimple f (headerStart f) with
-  | (.ok toc, _) =>
-    match rdFixed f 4 ⟨toc.off⟩ with
-    | (.ok n, r2) => .ok (toc, n, r2.off)
-    | (.err e, _) => .err e
-    | (.panic s, _) => .panic s
-    | (.diverge, _) => .diverge
-  | (.err e, _) => .err e
-  | (.panic s, _) => .panic s
-  | (.diverge, _) => .diverge
+/-- `readHeader`, second half: `r.seek(tocSection.off)`; the section count; the reader position afterwards -/
+def readHeaderCount (f : File) (toc : SimpleSection) : Outcome (SimpleSection × Nat × Nat) :=
+  let r := rdFixed f 4 ⟨toc.off⟩
+  match r.1 with
+  | .ok n => .ok (toc, n, r.2.off)
+  | .err e => .err e
+  | .panic s => .panic s
+  | .diverge => .diverge
+
+/-- `readHeader` from reader position `r` on: the TOC section, then the count -/
+def readHeaderAt (f : File) (r : Rd) : Outcome (SimpleSection × Nat × Nat) :=
+  match (readSimple f r).1 with
+  | .ok toc => readHeaderCount f toc
+  | .err e => .err e
+  | .panic s => .panic s
+  | .diverge => .diverge
+
+def readHeader (f : File) : Outcome (SimpleSection × Nat × Nat) := readHeaderAt f (headerStart f)
 
 /-- `for len(blob) > 0 { arr = append(arr, BigEndian.UintN(blob)); blob = blob[k:] }` -/
 def chunksBE (k : Nat) : Nat → Bytes → Outcome (List Nat)
